@@ -207,6 +207,7 @@ func ppPool() {
 		return
 	}
 	if b, _ := ppBinary(); b == "" {
+		ppRes = map[string]chan ppOut{} // no workers: every case reports the build error itself (ppRun) instead of waiting
 		return
 	}
 	n := runtime.NumCPU() / 2
